@@ -510,6 +510,8 @@ func (m *Module) Run(lines []string) ([]string, error) {
 	}
 	// writer goroutine + reader (pipelined)
 	i := 0
+	crashes := 0
+	const maxCrashes = 12
 	for i < len(lines) {
 		done := make(chan error, 1)
 		start := i
@@ -544,6 +546,15 @@ func (m *Module) Run(lines []string) ([]string, error) {
 			m.cmd.Wait()
 			<-done
 			m.cmd = nil
+			crashes++
+			if crashes >= maxCrashes {
+				// the driver keeps dying (a fatal error such as a stack overflow on many of the requests): the crashes seen so
+				// far are the observation; the remaining lines are not run (each restart costs seconds)
+				for ; i < len(lines); i++ {
+					out[i] = "SKIP driver-died-too-often"
+				}
+				return out, nil
+			}
 			if i < len(lines) {
 				if err := m.Start(); err != nil {
 					return nil, err
